@@ -74,6 +74,11 @@ def check(run, project):
     from .c02 import primitive_event_once
     from ..roles import MarshalRoles as _MR
     primitive_event_once(run, _MR(project), "Y6")
+    # Y9 (= C04-V6, union part): the one value error warn mode still aborts with when a selector selects no member is built
+    # from the selector itself (an error built from another object fails in its own constructor / text form: an internal
+    # error where the documented abort belongs)
+    from .c04 import v6_union
+    v6_union(run, _MR(project), rule="Y9")
     lg = WarnLedger(run, project, "warn")
     counts = {}
     for s in lg.sites:
